@@ -298,6 +298,8 @@ type predEnv struct {
 	strs map[types.Object]string
 	p    *Prog
 	dep  int
+	ints map[types.Object]int64    // integer parameters bound to constant arguments
+	defs map[types.Object]ast.Expr // locals defined once by `x := expr` in a predicate body
 }
 
 type undecidedErr struct{ msg string }
@@ -308,7 +310,176 @@ func (env *predEnv) constOf(e ast.Expr) (constant.Value, bool) {
 	if tv, ok := env.pkg.TypesInfo.Types[e]; ok && tv.Value != nil {
 		return tv.Value, true
 	}
+	if id, ok := stripParen(e).(*ast.Ident); ok {
+		if k, ok := env.ints[env.pkg.TypesInfo.Uses[id]]; ok {
+			return constant.MakeInt64(k), true
+		}
+	}
 	return nil, false
+}
+
+// arith evaluates an integer expression over window bytes, constants, bound integer parameters and single-definition
+// locals for one assignment of byte values; pos collects the window positions it reads.
+func (env *predEnv) arith(e ast.Expr, val map[int]int64, pos map[int]bool, depth int) (int64, bool) {
+	if depth > 12 {
+		return 0, false
+	}
+	if v, ok := env.constOf(e); ok && v.Kind() == constant.Int {
+		k, exact := constant.Int64Val(v)
+		return k, exact
+	}
+	switch x := e.(type) {
+	case *ast.ParenExpr:
+		return env.arith(x.X, val, pos, depth+1)
+	case *ast.Ident:
+		if d, ok := env.defs[env.pkg.TypesInfo.Uses[x]]; ok {
+			return env.arith(d, val, pos, depth+1)
+		}
+	case *ast.CallExpr:
+		// integer conversions int(b), uint16(b), …
+		if len(x.Args) == 1 {
+			if tv, ok := env.pkg.TypesInfo.Types[x.Fun]; ok && tv.IsType() {
+				if b, ok := tv.Type.Underlying().(*types.Basic); ok && b.Info()&types.IsInteger != 0 {
+					v, ok := env.arith(x.Args[0], val, pos, depth+1)
+					if !ok {
+						return 0, false
+					}
+					switch b.Kind() {
+					case types.Uint8, types.Int8:
+						if v < 0 || v > 255 {
+							return 0, false
+						}
+					}
+					return v, true
+				}
+			}
+		}
+	case *ast.IndexExpr:
+		w, err := env.window(x.X)
+		if err != nil {
+			return 0, false
+		}
+		kv, ok := env.constOf(x.Index)
+		if !ok {
+			return 0, false
+		}
+		k, _ := constant.Int64Val(kv)
+		if w.length >= 0 && int(k) >= w.length {
+			return 0, false
+		}
+		pos[w.off+int(k)] = true
+		return val[w.off+int(k)], true
+	case *ast.BinaryExpr:
+		a, ok1 := env.arith(x.X, val, pos, depth+1)
+		b, ok2 := env.arith(x.Y, val, pos, depth+1)
+		if !ok1 || !ok2 {
+			return 0, false
+		}
+		switch x.Op {
+		case token.ADD:
+			return a + b, true
+		case token.SUB:
+			return a - b, true
+		case token.MUL:
+			return a * b, true
+		case token.OR:
+			return a | b, true
+		case token.AND:
+			return a & b, true
+		case token.XOR:
+			return a ^ b, true
+		case token.SHL:
+			if b >= 0 && b < 32 {
+				return a << uint(b), true
+			}
+		case token.SHR:
+			if b >= 0 && b < 32 {
+				return a >> uint(b), true
+			}
+		}
+	}
+	return 0, false
+}
+
+// evalArith decides `lhs op rhs` for integer expressions that read at most two bytes of the window, by enumerating
+// the byte values: the result is the union over the first byte's values of {first = v} × {second ∈ S(v)}.
+func (env *predEnv) evalArith(x *ast.BinaryExpr) (dnf, bool) {
+	pos := map[int]bool{}
+	val := map[int]int64{}
+	if _, ok := env.arith(x.X, val, pos, 0); !ok {
+		return nil, false
+	}
+	if _, ok := env.arith(x.Y, val, pos, 0); !ok {
+		return nil, false
+	}
+	var ps []int
+	for k := range pos {
+		ps = append(ps, k)
+	}
+	sort.Ints(ps)
+	if len(ps) == 0 || len(ps) > 2 {
+		return nil, false
+	}
+	holds := func() bool {
+		a, _ := env.arith(x.X, val, map[int]bool{}, 0)
+		b, _ := env.arith(x.Y, val, map[int]bool{}, 0)
+		switch x.Op {
+		case token.EQL:
+			return a == b
+		case token.NEQ:
+			return a != b
+		case token.LSS:
+			return a < b
+		case token.LEQ:
+			return a <= b
+		case token.GTR:
+			return a > b
+		case token.GEQ:
+			return a >= b
+		}
+		return false
+	}
+	var out dnf
+	if len(ps) == 1 {
+		var bs byteset
+		for v := 0; v < 256; v++ {
+			val[ps[0]] = int64(v)
+			if holds() {
+				bs.set(byte(v))
+			}
+		}
+		if bs.empty() {
+			return dnfFalse(), true
+		}
+		return dnf{cube{ps[0]: bs}}.norm(), true
+	}
+	// two bytes: group the first byte's values by the set of second-byte values they admit
+	groups := map[byteset]*byteset{}
+	var order []byteset
+	for v := 0; v < 256; v++ {
+		val[ps[0]] = int64(v)
+		var second byteset
+		for w := 0; w < 256; w++ {
+			val[ps[1]] = int64(w)
+			if holds() {
+				second.set(byte(w))
+			}
+		}
+		if second.empty() {
+			continue
+		}
+		g, ok := groups[second]
+		if !ok {
+			g = &byteset{}
+			groups[second] = g
+			order = append(order, second)
+		}
+		g.set(byte(v))
+	}
+	for _, second := range order {
+		out = append(out, cube{ps[0]: *groups[second], ps[1]: second})
+	}
+	return out.norm(), true
 }
 
 func (env *predEnv) window(e ast.Expr) (window, error) {
@@ -446,9 +617,21 @@ func (env *predEnv) eval(e ast.Expr) (dnf, error) {
 			}
 			return a.or(b), nil
 		case token.EQL, token.NEQ:
-			return env.evalCompare(x)
+			d, err := env.evalCompare(x)
+			if err != nil {
+				if a, ok := env.evalArith(x); ok {
+					return a, nil
+				}
+			}
+			return d, err
 		case token.LSS, token.LEQ, token.GTR, token.GEQ:
-			return env.evalLen(x)
+			d, err := env.evalLen(x)
+			if err != nil {
+				if a, ok := env.evalArith(x); ok {
+					return a, nil
+				}
+			}
+			return d, err
 		}
 	case *ast.UnaryExpr:
 		if x.Op == token.NOT {
@@ -700,7 +883,8 @@ func (env *predEnv) evalCall(ce *ast.CallExpr) (dnf, error) {
 		return nil, undecidedErr{"predicate " + fobj.Name() + " has no body in the module"}
 	}
 	body := fd.Body.List
-	ne := &predEnv{pkg: pk, wins: map[types.Object]window{}, strs: map[types.Object]string{}, p: env.p, dep: env.dep + 1}
+	ne := &predEnv{pkg: pk, wins: map[types.Object]window{}, strs: map[types.Object]string{}, p: env.p, dep: env.dep + 1,
+		ints: map[types.Object]int64{}, defs: map[types.Object]ast.Expr{}}
 	i := 0
 	for _, fld := range fd.Type.Params.List {
 		for _, nm := range fld.Names {
@@ -720,6 +904,9 @@ func (env *predEnv) evalCall(ce *ast.CallExpr) (dnf, error) {
 			case *types.Basic:
 				if s, ok := env.stringOf(arg); ok {
 					ne.strs[obj] = s
+				} else if v, ok := env.constOf(arg); ok && v.Kind() == constant.Int {
+					k, _ := constant.Int64Val(v)
+					ne.ints[obj] = k
 				} else {
 					return nil, undecidedErr{"non-constant argument to predicate " + fobj.Name()}
 				}
@@ -744,6 +931,16 @@ func (env *predEnv) evalStmts(body []ast.Stmt, name string) (dnf, error) {
 		if len(st.Lhs) == 1 && len(st.Rhs) == 1 {
 			if id, ok := st.Lhs[0].(*ast.Ident); ok && id.Name == "_" {
 				if _, ok := st.Rhs[0].(*ast.IndexExpr); ok {
+					return env.evalStmts(body[1:], name)
+				}
+			}
+			// x := expr, a local defined once: substituted where it is used
+			if id, ok := st.Lhs[0].(*ast.Ident); ok && st.Tok == token.DEFINE && id.Name != "_" {
+				if obj := env.pkg.TypesInfo.Defs[id]; obj != nil {
+					if env.defs == nil {
+						env.defs = map[types.Object]ast.Expr{}
+					}
+					env.defs[obj] = st.Rhs[0]
 					return env.evalStmts(body[1:], name)
 				}
 			}
